@@ -343,7 +343,32 @@ impl<'t, 'a> FnGen<'t, 'a> {
         let g = self.globals[0].clone();
         let f = self.funcs[self.t.pick(self.funcs.len())].clone();
         let ok_args: Vec<Expr> = (0..f.params.len()).map(|_| num(1.0)).collect();
-        let (tag, stmts): (&'static str, Vec<Stmt>) = match self.t.pick(20) {
+        let (tag, stmts): (&'static str, Vec<Stmt>) = match self.t.pick(22) {
+            20 => {
+                // a parameter with the very name of its function: inside, the name is the variable, calling it is an error
+                let sh = self.fresh();
+                (
+                    "parameter_named_like_its_function",
+                    vec![
+                        Stmt::Function { name: sh.clone(), params: vec![sh.clone()], body: vec![say(strlit("in")), Stmt::Return { value: call(&sh, vec![num(0.0)]) }] },
+                        say(call(&sh, vec![num(5.0)])),
+                    ],
+                )
+            }
+            21 => {
+                // the same function name defined twice in one scope: the second definition is a runtime error
+                let sh = self.fresh();
+                let p = self.fresh();
+                (
+                    "function_defined_twice",
+                    vec![
+                        Stmt::Function { name: sh.clone(), params: vec![p.clone()], body: vec![Stmt::Return { value: num(1.0) }] },
+                        say(call(&sh, vec![num(0.0)])),
+                        Stmt::Function { name: sh.clone(), params: vec![p.clone()], body: vec![Stmt::Return { value: num(2.0) }] },
+                        say(call(&sh, vec![num(0.0)])),
+                    ],
+                )
+            }
             19 => {
                 // a block whose ONLY statement that can create a variable is of one particular kind: the variable is
                 // local to that block all the same, reading it afterwards is a runtime error
